@@ -7,6 +7,9 @@ props = [json.loads(l)['id'] for l in open(f'{V}/properties.jsonl')]
 
 # property -> (category, level text, technique, level_note)
 CHECKS = {
+ 'C06': ('exploration', 'metamorphic relation explored exhaustively within bounds: every statement of the corpus x every clean line sequence x every single and double insertion of every noise line at every position x batch and incremental drivers (also on the joined side); admission rule checked on NOT NULL / DEFAULT tables', 'bounded-exhaustive enumeration of noise insertions with a same-build metamorphic oracle', 'trusted: same-build oracle; noise alphabets in the harness'),
+ 'C17': ('exploration', 'all rows of 1..2 columns over a 43-value printable domain (3 columns reduced) x 3 formats x single_result x result shapes through the public OutputPrinter; JSON parse-back (exact INT, bit-exact REAL, text, arrays), CSV header/field accounting, text pairs, println accounting', 'bounded-exhaustive enumeration of result rows and result shapes with a parse-back oracle', 'trusted: serde_json as JSON parser, std float parser; REAL two-decimal text form adopted'),
+ 'C18': ('exploration', 'corpus x formats x table-definition contexts x controlled hash seeds (LD_PRELOAD getrandom shim, fresh thread per replica) x fresh processes; byte-identical output required; canary map proves seeds permute iteration orders. Exhaustive over the bounded seed set only', 'exhaustive enumeration of a bounded set of hash seeds (environment nondeterminism owned through a getrandom shim) with byte-equality oracle', 'trusted: std RandomState takes keys from libc getrandom (checked at run time); seed set is a bounded subset of the key space'),
  'C07': ('model_checking', 'operation-sequence exploration of the executor state machine: every line sequence up to the bound x every split into 1..3 files x every n, each LIMIT run compared with the unlimited run of the same build (output prefix + consumed-line count)', 'bounded-exhaustive operation sequences (lines x file splits x n) on the real FileExecutor, metamorphic oracle against the unlimited run', 'trusted: unlimited run of the same build; bounds in evidence'),
  'C08': ('model_checking', 'every line sequence up to the bound over a colliding tuple alphabet, DISTINCT output vs first-occurrence filter (reference tuple equality) of the non-DISTINCT output; long-gap scenarios; aggregate DISTINCT in batch and after every refresh', 'bounded-exhaustive operation sequences against a reference filter over the same build\'s non-DISTINCT output', 'trusted: reference tuple equality (NULL=NULL, numbers by value)'),
  'C10': ('model_checking', 'exhaustive schedule exploration of writer appends vs reader polls on the real FollowFileIterator through the FollowRetry hook: all contents up to the bound x all byte-level cuts x buffer capacities x stutter polls', 'stateless schedule enumeration on the real code via a cfg-guarded hook (environment moves = appends at the only observable point)', 'trusted: append atomicity per write(); DESIGN.md §5 C10 completeness argument'),
